@@ -3,7 +3,8 @@
 (standard input stays /dev/null), print what it wrote as hex on one line and its exit status on the next.
 usage: pty_run.py COLS ROWS CWD cmd args...   (used by the harness for renderings that only a terminal sees)
 The environment variable PTY_FDS chooses which descriptors get the terminal: "12" (default), "1" or "2"; the other one
-of standard output / standard error is sent to the file named by PTY_OTHER (default /dev/null)."""
+of standard output / standard error is sent to the file named by PTY_OTHER (default /dev/null); standard input is the
+file named by PTY_STDIN (default /dev/null)."""
 import os, pty, sys, fcntl, termios, struct, select
 cols, rows, cwd = int(sys.argv[1]), int(sys.argv[2]), sys.argv[3]
 argv = sys.argv[4:]
@@ -12,7 +13,7 @@ fcntl.ioctl(slave, termios.TIOCSWINSZ, struct.pack("HHHH", rows, cols, 0, 0))
 pid = os.fork()
 if pid == 0:
     os.chdir(cwd)
-    devnull = os.open("/dev/null", os.O_RDONLY)
+    devnull = os.open(os.environ.get("PTY_STDIN", "/dev/null"), os.O_RDONLY)
     os.dup2(devnull, 0)
     fds = os.environ.get("PTY_FDS", "12")
     other = os.open(os.environ.get("PTY_OTHER", "/dev/null"), os.O_WRONLY | os.O_CREAT | os.O_TRUNC, 0o644)
